@@ -1,9 +1,12 @@
 (* C09 — executable side of the correspondence check: the case type written by the Go harness
    (harness/overlay/light/verif_c09_client_test.go), the property monitors evaluated on the
    implementation's own answers, and the comparison of the model with the implementation.
-   Depends on Model.v only. *)
+   Depends on definition files only (Model.v, EvidenceModel.v, EvidenceRun.v, and for the
+   evidence monitor the SPECIFICATION C11/Spec.v with C11/Model.v's record types), never on a
+   proof file. *)
 From Coq Require Import List ZArith NArith Bool.
-From TM Require Import Common.Hex Generated.Consts C07.Model C09.Model.
+From TM Require Import Common.Hex Generated.Consts C07.Model C09.Model C09.EvidenceModel C09.EvidenceRun.
+From TM Require C11.Model C11.Spec.
 Import ListNotations.
 Open Scope Z_scope.
 
@@ -30,10 +33,18 @@ Inductive rep := RB (idx : nat) | RE (code : N).          (* a block of the tabl
    repeats; no entry = ErrLightBlockNotFound) *)
 Definition provt := (Z * bool * list (Z * list rep))%type.
 
+(* the remaining fields of a reported evidence, as the implementation filled them: table index of
+   the conflicting light block (-1: not a block of the table), Timestamp, TotalVotingPower,
+   ByzantineValidators (address, power) in order, and the answer of a real evidence.Pool over the
+   honest chain to AddEvidence: 0 not asked (outside the premises of C09_evidence_is_admissible
+   decidable on the case), 1 accepted, 2 refused *)
+Definition evx := (Z * Z * Z * list (Z * Z) * N)%type.
+
 (* observation after a client call: error class, store (height, hash id), primary, witnesses,
    evidence reported during the call (receiver, hash id of ConflictingBlock, CommonHeight),
-   requests answered during the call (provider, height, hash id or -1-code) *)
-Definition obs := (N * list (Z * Z) * Z * list Z * list (Z * Z * Z) * list (Z * Z * Z))%type.
+   requests answered during the call (provider, height, hash id or -1-code), and for each
+   evidence, in the same order, its remaining fields *)
+Definition obs := (N * list (Z * Z) * Z * list Z * list (Z * Z * Z) * list (Z * Z * Z) * list evx)%type.
 
 Inductive opt := OV (h now : Z) | OU (now : Z).
 
@@ -45,7 +56,10 @@ Inductive case :=
        (order : list Z)                       (* provider ids, earliest arrival first *)
        (init : Z * list Z * Z * Z)            (* primary, witnesses, trust height, trust hash id *)
        (init_obs : obs)
-       (ops : list (opt * obs)).
+       (ops : list (opt * obs))
+       (hchain : list nat)                    (* the honest chain: table index of the block of height 1, 2, ... *)
+       (aorder : list Z).                     (* aorder[a]: rank of validator address a in the byte order of the
+                                                 real addresses (ValidatorsByVotingPower breaks ties by address) *)
 
 (* ------------------------------------------------------------------ building model values *)
 
@@ -278,12 +292,13 @@ Definition log_obs (l : list (pid * Z * preply isig)) : list (Z * Z * Z) :=
 Definition per_provider (p : Z) (l : list (Z * Z * Z)) : list (Z * Z * Z) :=
   filter (fun '(q, _, _) => q =? p) l.
 
-Definition obs_err (o : obs) : N := let '(e, _, _, _, _, _) := o in e.
-Definition obs_store (o : obs) : list (Z * Z) := let '(_, s, _, _, _, _) := o in s.
-Definition obs_prim (o : obs) : Z := let '(_, _, p, _, _, _) := o in p.
-Definition obs_wits (o : obs) : list Z := let '(_, _, _, w, _, _) := o in w.
-Definition obs_ev (o : obs) : list (Z * Z * Z) := let '(_, _, _, _, e, _) := o in e.
-Definition obs_log (o : obs) : list (Z * Z * Z) := let '(_, _, _, _, _, l) := o in l.
+Definition obs_err (o : obs) : N := let '(e, _, _, _, _, _, _) := o in e.
+Definition obs_store (o : obs) : list (Z * Z) := let '(_, s, _, _, _, _, _) := o in s.
+Definition obs_prim (o : obs) : Z := let '(_, _, p, _, _, _, _) := o in p.
+Definition obs_wits (o : obs) : list Z := let '(_, _, _, w, _, _, _) := o in w.
+Definition obs_ev (o : obs) : list (Z * Z * Z) := let '(_, _, _, _, e, _, _) := o in e.
+Definition obs_log (o : obs) : list (Z * Z * Z) := let '(_, _, _, _, _, l, _) := o in l.
+Definition obs_evx (o : obs) : list evx := let '(_, _, _, _, _, _, x) := o in x.
 
 (* model state after a call vs observation; the model's log/evidence lists are newest-first and
    cumulative: [nlog], [nev] are their lengths before the call *)
@@ -332,6 +347,136 @@ Definition monitors (P : params) (tbl : list (list validator)) (blks : list lblk
     (* 6: a call that failed stored nothing *)
     viol (N.eqb (obs_err after) 0 || Nat.eqb (length fresh) 0) 6 ].
 
+
+(* ------------------------------------------------------------------ monitors on the evidence.
+   The SPECIFICATION of light client attack evidence (C11/Spec.v) evaluated on the evidence the
+   implementation reported, against the honest chain of the case; nothing of C09.Model's detector
+   or of EvidenceModel.new_evidence_full is involved (only the translation of blocks into C11's
+   records). *)
+
+Definition zn (z : Z) : N := Z.to_N z.            (* all ids of a case are >= 0 *)
+(* addresses become their rank in the order of the real addresses *)
+Definition arank (aorder : list Z) (a : Z) : N := Z.to_N (nth (Z.to_nat a) aorder 0).
+
+Section EvMonitor.
+Variable P : params.
+Variable tbl : list (list validator).
+Variable blks : list lblk.
+Variable hchain : list nat.
+Variable aorder : list Z.
+Variable provs : list provt.
+
+(* a provider every scripted block of which is a block of the honest chain (the block itself, not
+   only its header hash: a block with the honest header and another validator set or commit is
+   outside the provider contract) *)
+Definition honest_provider (p : Z) : bool :=
+  existsb (fun '(q, _, sc) =>
+    (q =? p) && forallb (fun '(_, rs) => forallb (fun r => match r with
+                                                          | RB i => existsb (Nat.eqb i) hchain
+                                                          | RE _ => true
+                                                          end) rs) sc) provs.
+
+Definition hblock (h : Z) : option lblk :=
+  if h <=? 0 then None
+  else match nth_error hchain (Z.to_nat (h - 1)) with
+       | Some i => nth_error blks i
+       | None => None
+       end.
+Definition honest_tag (t : Z) : bool :=
+  existsb (fun i => match nth_error blks i with Some b => h_tag (lb_hdr isig b) =? t | None => false end) hchain.
+Definition height_of_tag (t : Z) : Z :=
+  match find (fun b => h_tag (lb_hdr isig b) =? t) blks with Some b => lb_height isig b | None => -1 end.
+
+(* provider p answered, during the call, with blocks of the honest chain only (errors aside) *)
+Definition served_honestly (log : list (Z * Z * Z)) (p : Z) : bool :=
+  honest_provider p && forallb (fun '(q, _, r) => negb (q =? p) || (r <? 0) || honest_tag r) log.
+Definition heights_served (log : list (Z * Z * Z)) (p : Z) : list Z :=
+  map (fun '(_, _, r) => height_of_tag r) (filter (fun '(q, _, r) => (q =? p) && (0 <=? r)) log).
+
+(* the block of the receiver's chain the conflicting block is compared with: the honest block of
+   its height when the receiver served that height, else the receiver's highest block when that
+   is below (forward lunatic attack) *)
+Definition opt_list {A} (o : option A) : list A := match o with Some x => [x] | None => [] end.
+(* the trusted block is not part of the evidence: the honest block of the conflicting height, or,
+   when everything the receiver served is below (forward lunatic attack), its highest block *)
+Definition reference_blocks (log : list (Z * Z * Z)) (p hc : Z) : list lblk :=
+  let hs := heights_served log p in
+  let top := fold_right Z.max 0 hs in
+  opt_list (hblock hc) ++ (if (0 <? top) && (top <? hc) then opt_list (hblock top) else []).
+
+Definition to_hdr11 (b : lblk) := to_header isig xhash zn b.
+Definition core11 (chain : Z) (b : lblk) :=
+  lca_core isig ideal_verify xhash (xvhash tbl) xbid_hash (arank aorder) zn chain b.
+
+Definition ev_spec_ok (log : list (Z * Z * Z)) (e : Z * Z * Z) (x : evx) : bool :=
+  let '(p, tag, H) := e in
+  let '(bi, tm, tot, byz, _) := x in
+  match (if bi <? 0 then None else nth_error blks (Z.to_nat bi)) with
+  | None => true
+  | Some cb =>
+    let hc := lb_height isig cb in
+    if negb (h_tag (lb_hdr isig cb) =? tag) then true else
+    if honest_tag tag then true else                      (* "evidence" against the honest block: no claim *)
+    if negb (served_honestly log p) then true else        (* the receiver's side is not the honest chain *)
+    match reference_blocks log p hc with
+    | [] => true
+    | refs =>
+      existsb (fun t =>
+        let chain := h_chain (lb_hdr isig t) in
+        let l := core11 chain cb in
+        if negb (E.sigs_for_block_ok l) then true else    (* a for-block slot that does not verify *)
+        match hblock H with
+        | None => false                                   (* CommonHeight is not a height of the chain *)
+        | Some base =>
+          let lun := ES.hashes_differ l (to_hdr11 t) in
+          (if lun then H <? hc else H =? lb_height isig t)
+          && (tm =? lb_time isig base)
+          && (tot =? total_power (lb_vals isig base))
+          && ES.byz_ok l (to_vals (arank aorder) (lb_vals isig base)) (to_vals (arank aorder) (lb_vals isig t))
+                       (to_hdr11 t)
+                       (map (fun ap => {| E.va_addr := arank aorder (fst ap); E.va_power := snd ap |}) byz)
+        end) refs
+    end
+  end.
+
+(* a provider that was a witness when the call began, answered only with blocks of the honest
+   chain during the call, and whose last answer for height h is the honest header, not later
+   than now + drift, while another header was stored for h *)
+Definition backable_conflict (now : Z) (before after : obs) (x : Z * Z) : bool :=
+  let log := obs_log after in
+  forallb honest_tag (map snd (obs_store before)) &&
+  existsb (fun p =>
+    negb (p =? obs_prim after) && negb (p =? obs_prim before) && honest_provider p &&
+    forallb (fun '(q, _, r) => negb (q =? p) || ((0 <=? r) && honest_tag r)) log &&
+    match last_answer log p (fst x), hblock (fst x) with
+    | Some g, Some hb => (g =? h_tag (lb_hdr isig hb)) && negb (g =? snd x)
+                         && (lb_time isig hb <? now + p_drift P)
+    | _, _ => false
+    end) (obs_wits before).
+
+End EvMonitor.
+
+Definition ev_monitors (P : params) (tbl : list (list validator)) (blks : list lblk) (hchain : list nat)
+           (aorder : list Z) (provs : list provt) (now : Z) (before after : obs) : list verdict :=
+  let sb := obs_store before in let sa := obs_store after in
+  let fresh := filter (fun x => negb (existsb (zz_eqb x) sb)) sa in
+  let first_h := match sb with [] => 0 | (h, _) :: _ => h end in
+  let fwd := filter (fun x => first_h <=? fst x) fresh in
+  [ (* 8: the evidence sent to a provider on the honest chain is what the specification says:
+          CommonHeight = the reference block's height unless the conflicting header is invalid
+          (then below the conflicting block), Timestamp / TotalVotingPower = those of the honest
+          block / validator set of CommonHeight, ByzantineValidators = THE specified list
+          relative to that validator set *)
+    viol (Nat.eqb (length (obs_ev after)) (length (obs_evx after)) &&
+          forallb (fun '(e, x) => ev_spec_ok tbl blks hchain aorder provs (obs_log after) e x)
+                  (combine (obs_ev after) (obs_evx after))) 8;
+    (* 9: a full node holding the honest chain admits the evidence (real evidence.Pool) *)
+    viol (forallb (fun x => let '(_, _, _, _, a) := x in negb (N.eqb a 2)) (obs_evx after)) 9;
+    (* 10: a header is not stored while a witness holds, and can back, the honest header of that
+           height (the call must end with the attack error) *)
+    viol (negb (N.eqb (obs_err after) 0) ||
+          forallb (fun x => negb (backable_conflict P blks hchain provs now before after x)) fwd) 10 ].
+
 Definition op_now (o : opt) : Z := match o with OV _ n => n | OU n => n end.
 Definition mk_op (o : opt) : op := match o with OV h n => Op_verify_at h n | OU n => Op_update n end.
 
@@ -341,9 +486,43 @@ Variable tbl : list (list validator).
 Variable blks : list lblk.
 Variable order : list Z.
 Variable pids : list Z.
+Variable hchain : list nat.
+Variable aorder : list Z.
+Variable provs : list provt.
 
 Definition xstep := step isig ideal_verify xhash (xvhash tbl) xbid_hash world
                          (xask (p_chain P) tbl blks) (fun p => index_of order p 0) P.
+(* the same step, returning the full evidence of the repaired detector as well (EvidenceRun.v) *)
+Definition xstep_full := step_full isig ideal_verify xhash (xvhash tbl) xbid_hash (arank aorder) zn world
+                                   (xask (p_chain P) tbl blks) (fun p => index_of order p 0) P.
+
+Definition evf_obs (l : list (pid * evid_full isig)) : list (Z * Z * Z * (Z * Z * list (Z * Z))) :=
+  map (fun '(p, e) => (p, h_tag (lb_hdr isig (ef_block isig e)), ef_common isig e,
+                       (ef_time isig e, ef_total isig e,
+                        map (fun v => (Z.of_N (E.va_addr v), E.va_power v)) (ef_byz isig e)))) l.
+Definition evf_eqb (a b : Z * Z * Z * (Z * Z * list (Z * Z))) : bool :=
+  let '(a1, (at1, ao1, ab1)) := a in let '(b1, (bt1, bo1, bb1)) := b in
+  zzz_eqb a1 b1 && (at1 =? bt1) && (ao1 =? bo1) && list_eqb zz_eqb ab1 bb1.
+
+(* 17: the full evidence of the model vs the implementation's; 18: EvidenceRun's copy of the call
+   tree agrees with Model.step on everything Model.step is compared by *)
+Definition compare_full (c : client isig) (s : st isig world) (o : opt) (ob : obs) : list verdict :=
+  let '(e, c1, s1) := xstep c s (mk_op o) in
+  let '(e', c1', s1', a) := xstep_full c s (mk_op o) in
+  let nev := (length (st_ev isig world s1) - length (st_ev isig world s))%nat in
+  [ mism (list_eqb evf_eqb (rev (evf_obs a))
+            (map (fun '(e3, x) => let '(_, tm, tot, byz, _) := x in
+                                  (e3, (tm, tot, map (fun ap => (Z.of_N (arank aorder (fst ap)), snd ap)) byz)))
+                 (combine (obs_ev ob) (obs_evx ob)))
+          && Nat.eqb (length (obs_ev ob)) (length (obs_evx ob))) 17;
+    mism (N.eqb (err_code e) (err_code e')
+          && list_eqb zz_eqb (store_obs c1) (store_obs c1')
+          && (cl_primary isig c1 =? cl_primary isig c1')
+          && list_eqb Z.eqb (cl_witnesses isig c1) (cl_witnesses isig c1')
+          && list_eqb zzz_eqb (ev_obs (st_ev isig world s1)) (ev_obs (st_ev isig world s1'))
+          && list_eqb zzz_eqb (log_obs (st_log isig world s1)) (log_obs (st_log isig world s1'))
+          && list_eqb zzz_eqb (ev_obs (firstn nev (st_ev isig world s1)))
+                      (map (fun '(p, t, h, _) => (p, t, h)) (evf_obs a))) 18 ].
 
 Fixpoint run_ops (c : client isig) (s : st isig world) (before : obs) (ops : list (opt * obs))
   : list verdict :=
@@ -352,7 +531,9 @@ Fixpoint run_ops (c : client isig) (s : st isig world) (before : obs) (ops : lis
   | (o, ob) :: r =>
     let '(e, c1, s1) := xstep c s (mk_op o) in
     monitors P tbl blks (op_now o) before ob
+    ++ ev_monitors P tbl blks hchain aorder provs (op_now o) before ob
     ++ compare_obs pids e c1 s1 (length (st_log isig world s)) (length (st_ev isig world s)) ob
+    ++ compare_full c s o ob
     ++ run_ops c1 s1 ob r
   end.
 End Run.
@@ -360,7 +541,7 @@ End Run.
 Definition check (c : case) : verdict :=
   match c with
   | CRun (chain, period, drift, num, den, sequential, prune) valsets blocks provs order
-         (prim, wits, th, thash) init_obs ops =>
+         (prim, wits, th, thash) init_obs ops hchain aorder =>
     let P := {| p_chain := chain; p_period := period; p_drift := drift; p_num := num; p_den := den;
                 p_sequential := sequential; p_prune := prune |} in
     let tbl := map (map mk_val) valsets in
@@ -376,6 +557,6 @@ Definition check (c : case) : verdict :=
             list_eqb zz_eqb (obs_store init_obs) [(th, thash)]) 7
       :: compare_obs pids e0 c0 s1 0 0 init_obs
       ++ (if N.eqb (obs_err init_obs) 0
-          then run_ops P tbl blks order pids c0 s1 init_obs ops
+          then run_ops P tbl blks order pids hchain aorder provs c0 s1 init_obs ops
           else []))
   end.
